@@ -56,7 +56,9 @@ def dcheck(chk, rule, what, value, offered, site, key):
 
 def builtin_forms(chk, P):
     I = F.make_interp(P)
-    for name in F.FORMS:
+    ref_forms, extra_forms = F.all_forms(I, P)
+    chk.info["further_registered_forms"] = extra_forms
+    for name in ref_forms + extra_forms:
         inst = F.form_instance(I, P, name)
         params = F.call_params(inst)
         if isinstance(params, tuple):
